@@ -5,9 +5,8 @@ verus! {
 //@INCLUDE prelude_object.rs
 //@INCLUDE opcodes.rs
 
-#[derive(PartialEq, Eq, Structural, Copy, Clone)]
-pub enum Scope { Local, Global }
-pub struct Symbol { pub scope: Scope, pub index: u16 }
+//@TYPE file=symbols.rs name=Scope attrs="#[derive(PartialEq, Eq, Structural, Copy, Clone)]"
+//@TYPE file=symbols.rs name=Symbol
 
 /// One context (global, or one function being compiled): opaque here. NOT DECIDED by any obligation: its
 /// own define/resolve (Vec<Vec<String>> with iterator adapters: no Verus model; > 500 s in CBMC even for a
@@ -33,7 +32,7 @@ impl Context {
     fn resolve(&self, name: &str) -> (r: Option<Symbol>) ensures r == ctx_resolve(*self, name@) { unimplemented!() }
 }
 
-pub struct SymbolTable { pub contexts: Vec<Context> }
+//@TYPE file=symbols.rs name=SymbolTable
 
 impl SymbolTable {
     pub fn new() -> (t: Self)
